@@ -34,6 +34,7 @@ class Run(object):
         self.counters = {}
         self.samples = []
         self.distinct = set()
+        self.distinct_n = None   # measured count, when tokens would be too many to keep
         self.evaluations = 0
         self.states = 0
         self.transitions = 0
@@ -81,7 +82,7 @@ class Run(object):
         wall = time.time() - self.t0
         cov = dict(
             evaluations=int(self.evaluations),
-            distinct_nontrivial=len(self.distinct),
+            distinct_nontrivial=(self.distinct_n if self.distinct_n is not None else len(self.distinct)),
             rule=self.rule,
             samples=self.samples or ['(none)'],
             counters=self.counters,
@@ -124,7 +125,7 @@ class Run(object):
         if len(self.violations) > 25:
             print(f'  ... {len(self.violations) - 25} more distinct violation keys not written')
         print(f'[{self.pid}] tier={self.tier} seed={self.seed} evaluations={self.evaluations} '
-              f'distinct={len(self.distinct)} states={self.states} transitions={self.transitions} '
+              f'distinct={self.distinct_n if self.distinct_n is not None else len(self.distinct)} states={self.states} transitions={self.transitions} '
               f'violations={len(self.violations)} known={len(self.known_seen)} wall={wall:.1f}s')
         if self.harness_errors:
             rc = rc or 2
